@@ -15,6 +15,7 @@ RULE = ("same two drivers as C15 (hostile direct fuzz through icontract "
         "Non-trivial / distinct as in C15")
 RULE += ("  Also: for linear models (H = 0) the reference is the end point of the whole projected-gradient PATH (generalised Cauchy point); the absolute stopping floor after a restart on a bound is classified with KF-C16.")
 RULE += (" Exact zero entries in the spider directions.")
+RULE += (' Family near_dependent_eq: nearly dependent equality rows for the normal solver.')
 ASSUMPTIONS = [
     "model increase / violation increase / |q| decrease judged relative to "
     "the magnitude of the terms: held <= 1e-9, violation > 1e-6",
